@@ -960,7 +960,7 @@ fn main() {
         "From Coq Require Import ZArith List. Import ListNotations. Open Scope Z_scope.\nFrom FV Require Import Lib.Cases C19.Model.",
         "case_ty",
         "check_case",
-        300,
+        340,
     );
     let nfonts = if thorough { 3600 } else { 450 };
     for fi in 0..nfonts {
